@@ -206,6 +206,28 @@ static void dump_chunks(zckCtx *z) {
     ev_raw("]");
 }
 
+/* by-number lookups in an order that repeats, descends, overshoots and comes back (a lookup must not depend on the one
+ * before it): pairs [asked, number of the chunk returned or -1] */
+static void dump_bynum(zckCtx *z) {
+    ev_raw(",\"bynum\":[");
+    int was = zck_is_error(z);
+    if(was) { ev_raw("]"); return; }            /* a context in error refuses lookups: nothing to compare */
+    long n = (long)zck_get_chunk_count(z); if(n < 0) n = 0; if(n > 40) n = 40;
+    long seq[400]; int m = 0;
+    for(long k = 0; k < n && m < 390; k++) { seq[m++] = k; seq[m++] = k; }                 /* ascending, each twice */
+    for(long k = n - 1; k >= 0 && m < 390; k--) seq[m++] = k;                               /* descending */
+    seq[m++] = n; seq[m++] = 0; seq[m++] = n + 5; seq[m++] = n - 1; seq[m++] = n - 1; seq[m++] = 0; seq[m++] = 0;    /* past the end and back */
+    for(long k = 0; k < n && m < 398; k += 2) { seq[m++] = k; if(k + 1 < n) seq[m++] = k + 1; seq[m++] = k; }
+    for(int i = 0; i < m; i++) {
+        if(seq[i] < 0) continue;
+        zckChunk *ch = zck_get_chunk(z, (size_t)seq[i]);
+        char tmp[64]; snprintf(tmp, sizeof tmp, "%s[%ld,%lld]", i ? "," : "", seq[i], ch ? (long long)zck_get_chunk_number(ch) : -1LL);
+        ev_raw(tmp);
+    }
+    ev_raw("]");
+    (void)zck_clear_error(z);       /* a lookup past the end sets a (non-fatal) error */
+}
+
 static void ev_valid(zckCtx *z) {
     ev_raw(",\"valid\":[");
     int first = 1;
@@ -402,6 +424,7 @@ static void run_cmd(int ntok, char **tok) {
         ev_int("detached", zck_is_detached_header(z));
         ev_int("comp_type", z ? z->comp.type : -1);
         dump_chunks(z);
+        dump_bynum(z);
         ev_end();
     }
     else if(!strcmp(op, "copy_chunks") || !strcmp(op, "find_matching")) {
